@@ -1,7 +1,8 @@
 """C02 concretiser (family P): sequential multi-connection programs on a real DB, checked against a
 snapshot model (each connection reads the committed state as of its last transaction boundary,
 plus its own changes).  Bound: 2 storages (mapping, file) x fixed + 60 (thorough: 600) random
-programs of <= 16 steps over 3 connections and 3 objects (seed VERIF_SEED); pooled reuse included.
+programs of <= 16 steps over 3 connections and 3 objects (seed VERIF_SEED); pooled reuse included;
+the fixed and the first 20 random programs again with a frozen wall clock (adjacent tids: last + 1).
 Thread schedules are NOT explored here."""
 import logging
 import os
@@ -26,6 +27,17 @@ NAMES = ['x', 'y', 'z']
 
 
 def run_program(prog, kind):
+    """kind 'x-frozen-clock': the wall clock does not advance during the program, so every commit gets the tid
+    FOLLOWING the previous one (last + 1 = the exclusive snapshot bound of a connection opened in between)"""
+    if kind.endswith('-frozen-clock'):
+        import time
+        real = time.time
+        now = real()
+        time.time = lambda: now
+        try:
+            return run_program(prog, kind[:-len('-frozen-clock')])
+        finally:
+            time.time = real
     d = None
     if kind == 'file':
         d = tempfile.mkdtemp(prefix='c02-')
@@ -101,6 +113,9 @@ def run_program(prog, kind):
 
 
 FIXED = [
+    # the reader is a connection that did not create the objects (connection 0 is the pooled creator: all cached)
+    [('read', 2, 'x'), ('write', 1, 'x'), ('write', 1, 'y'), ('commit', 1), ('read', 2, 'y'),
+     ('readall', 2), ('abort', 2), ('readall', 2)],
     [('read', 0, 'x'), ('write', 1, 'x'), ('write', 1, 'y'), ('commit', 1), ('read', 0, 'y'),
      ('readall', 0), ('abort', 0), ('readall', 0)],
     [('readall', 0), ('write', 1, 'x'), ('commit', 1), ('reopen', 0), ('readall', 0),
@@ -136,8 +151,8 @@ def search(func, candidate, seed, tier, obligation=''):
     rnd = random.Random(seed)
     progs = list(FIXED) + [random_program(rnd) for _ in range(60 if tier == 'quick' else 600)]
     cases = 0
-    for kind in ('mapping', 'file'):
-        for prog in progs:
+    for kind in ('mapping', 'file', 'mapping-frozen-clock', 'file-frozen-clock'):
+        for prog in (progs if '-' not in kind else progs[:len(FIXED) + 20]):
             cases += 1
             try:
                 r = run_program(prog, kind)
